@@ -1,19 +1,25 @@
 """C15 - documentation text is carried only inside comments of the generated code.
-Proof: Props/C15.v (the six write_comments fragments are contained iff every doc string is safe_<l>; witnesses).
-Correspondence: seeded programs (lib/progs.py) whose every documentable position (type, field, variant,
-struct-variant field, alias/newtype) carries doc strings over the property's alphabet (newline, `*/`, `/*`,
-`//`, three double / single quotes, backslash, `#`, backtick, CR, ordinary text ...) interleaved with unique
-sentinel tokens and written as `///`, `/** */` or #[doc = ".."].  Each program goes through the REAL
-generators (libdrive `generate`; a sample through the real binary) and through the extracted model, in all
-six languages.  Observation = the EXTRACTED reference lexer (Spec/Lexers.v) run on the bytes: for every
-sentinel, the lexer modes in which its characters are read; the verdict on the real bytes is the extracted
-good_C15 (every doc string reproduced, every character of it read inside a comment / docstring, lexer back
-in code at the end); the finding class is the extracted known_C15 on the doc strings AS CARRIED on the unchanged tree: the
-extracted c15_carried (= str::trim) of every attribute value the generator wrote (Spec/C15Spec.v: the expectation for a doc
-attribute with value v is the text trim v; what the trim removes is not carried).  A share of the docs is one line of text
-surrounded by blanks and line breaks in the attribute value only (`///   text  `, `/**   text   */`, the conventional
-`/**<LF> * text<LF> */`, #[doc = "<LF>text<LF>"]) at every documentable position: they are safe in every language.
-For Python the Gallina lexer is cross-checked against CPython's tokenize on the same bytes."""
+Proof: Props/C15.v.  After the three repairs (parse_comment_attrs hands the back ends one entry per LINE of a doc value; the
+TypeScript writer escapes the comment terminator; the Python docstring writer escapes three double quotes) there is NO finding
+class left: the fragments of all six write_comments are contained for every list of doc attribute values (C15_contained_<l>), and
+for arbitrary doc strings exactly when every string as written is safe (C15_exact).  The former witnesses are regression pins
+(C15_<l>_fixed) and stay in the corpus of this check, where they must pass.
+Correspondence: seeded programs (lib/progs.py) whose every documentable position (type, field, variant, struct-variant field,
+alias/newtype) carries doc attributes over the property's alphabet (LF, CR, CR LF, comment terminators and openers, runs of 3-7
+double quotes, backslashes in front of quotes and at line ends, three single quotes, hash, backtick, form feed, vertical tab,
+U+2028, lines consisting only of a terminator, ordinary text ...) interleaved with unique sentinel tokens and written as `///`,
+`/** */` or #[doc = ".."].  Each program goes through the REAL generators (libdrive `generate`; a sample through the real binary)
+and through the extracted model, in all six languages.  The expectation is computed from the SOURCE by the extracted
+specification: what every doc attribute CARRIES (c15_carried: the trimmed lines of the trimmed value; cross-checked against this
+file's own rendering of str::trim / str::lines / split and against the IR the real front end delivers) and how each carried line
+is WRITTEN (c15_site_written: verbatim; star-slash with a backslash in between in TypeScript; three double quotes as three escaped
+quotes in a Python docstring).  Observation = the EXTRACTED reference lexer (Spec/Lexers.v) run on the bytes: for every sentinel,
+the lexer modes in which its characters are read; the verdict on the real bytes is the extracted c15_reproduced (EVERY written
+line occurs in the file) and c15_contained_in (every character of every sentinel-carrying written line is read inside a comment /
+docstring, and the lexer is back in code at the end of the file - which a sentinel-free line, such as a lone terminator, that
+ended its comment would break as well).  A second stream puts doc strings directly into the IR (raw, untrimmed, with line breaks:
+strings no source text produces); there the verdict is demanded where the strings printed in line comments are free of LF / CR
+(dom_C15_ir) and model-vs-real equality everywhere.  For Python the Gallina lexer is cross-checked against CPython's tokenize."""
 import concurrent.futures, io, json, subprocess, tokenize
 import vf, progs, back, irgen
 from vf import S, Lst
@@ -21,13 +27,15 @@ from vf import S, Lst
 LANGS = [('typescript', 'ts', [], {}), ('kotlin', 'kt', ['--java-package', 'p'], {'package': 'p'}), ('swift', 'swift', [], {}),
          ('scala', 'scala', ['--scala-package', 'p.q'], {'package': 'p.q'}), ('go', 'go', ['--go-package', 'p'], {'package': 'p'}),
          ('python', 'py', [], {})]
-CLASS = {'typescript': 'C15-typescript', 'kotlin': 'C15-kotlin', 'swift': 'C15-swift', 'scala': 'C15-scala', 'go': 'C15-go', 'python': 'C15-python'}
 
-# the property's alphabet (tokens placed between sentinels); the first group is harmless in every language
+# the property's alphabet (tokens placed between sentinels); the first group contains no line break and no terminator
 SAFE_TOKENS = [' ', ' text ', '/*', '//', "'''", '\\', '#', '`', '"', '""', "'", '*', '/', '\\n', '${x}', '{', '}', '-->', '\\"', '* /', '\t',
-               'é', '\\\\', ' # ', '<b>', '@param', '"" "', '\\"""']
-RISKY_TOKENS = ['\n', '\n', '*/', '*/', '"""', '"""', '\r', '\r\n', '\n\n', '\n//', '\n/// ', '\n * ', '\n    ', '*/ /*', '""""', '\\\n', ' ',
-                '"""\n', '\n"""', '\n#', '\\"""" ', "'''\n"]
+               'é', '\\\\', ' # ', '<b>', '@param', '"" "', '\x0c', '\x0b', '\u2028', '\u00a0', ' \x0c ', '*\\/', '/ *', '\\"\\"\\"']
+RISKY_TOKENS = ['\n', '\n', '*/', '*/', '"""', '"""', '\r', '\r\n', '\n\n', '\n//', '\n/// ', '\n * ', '\n    ', '*/ /*', '""""', '\\\n', ' ',
+                '"""\n', '\n"""', '\n#', '\\"""" ', "'''\n", '\\"""', '\\\\"""', '"""""', '""""""', '"""""""', '\n"""\n', '\n*/\n', '*\n/', '*\r/',
+                '\n""\n', '\\\r\n', '\r\r\n', '\n\r', '\n"\n', '""\n"', '*/*/', '\n\\\n', '\x0c\n', '\n\u2028', '**/', '*//', '\n*/', '*/\n']
+# doc values without any sentinel: bare terminators (the file must still end in code mode, and every line must occur)
+BARE = ['*/', '"""', '"""\n"""', '*/\n*/', '\\', '"', '""', '*', '/', '#', '"""" """', '\\"""', '*/ x', 'x """', '"""\\', '*\n/']
 RUST_WS = {chr(c) for c in [9, 10, 11, 12, 13, 32, 0x85, 0xa0, 0x1680, 0x2028, 0x2029, 0x202f, 0x205f, 0x3000] + list(range(0x2000, 0x200b))}
 MODE = {1: 'code', 2: 'code/', 3: 'line-comment', 4: 'block-comment', 5: 'string', 6: 'long-string', 7: 'quote', 8: 'triple-quoted'}
 
@@ -48,6 +56,34 @@ def rust_trim(s):
     return s[a:b]
 
 
+def rust_lines(s):
+    """str::lines: split_inclusive(LF), then strip the LF and - only then - one CR in front of it"""
+    pieces, cur = [], ''
+    for ch in s:
+        cur += ch
+        if ch == '\n':
+            pieces.append(cur)
+            cur = ''
+    if cur:
+        pieces.append(cur)
+    out = []
+    for ln in pieces:
+        if ln.endswith('\n'):
+            ln = ln[:-1]
+            if ln.endswith('\r'):
+                ln = ln[:-1]
+        out.append(ln)
+    return out
+
+
+def rust_carried(v):
+    """parser.rs parse_comment_attrs (after the repair) on the value of one doc attribute"""
+    t = rust_trim(v)
+    if t == '':
+        return ['']
+    return [rust_trim(piece) for ln in rust_lines(t) for piece in ln.split('\r')]
+
+
 class DocGen:
     """doc strings with unique sentinels"""
 
@@ -63,6 +99,8 @@ class DocGen:
         r = self.rng
         if r.random() < 0.04:
             return ''
+        if risky and r.random() < 0.05:
+            return r.choice(BARE)
         k = r.choice([0, 1, 1, 2, 2, 3, 4])
         parts = [] if r.random() < 0.85 else [r.choice(SAFE_TOKENS)]
         parts.append(self.sentinel())
@@ -76,7 +114,7 @@ class DocGen:
     def edge_doc(self):
         """ONE line of harmless text; blanks and line breaks only AROUND it, in the attribute value: leading / trailing blanks in
         `///`, a one-line `/**  text  */`, the conventional block with one text line, #[doc = ".."] whose string starts / ends with
-        line breaks.  What is carried is the trimmed value (no line break left), safe in all six languages."""
+        line breaks.  What is carried is the one trimmed line."""
         r = self.rng
         t = ''
         while not rust_trim(t):
@@ -116,7 +154,7 @@ class DocGen:
         return ('attr', r.choice(['', ' ']) + t + r.choice(['', ' ']))
 
     def raw_docs(self, risky, p):
-        """doc strings as no parser would deliver them (untrimmed): for the IR-level stream"""
+        """doc strings as no parser would deliver them (untrimmed, with line breaks): for the IR-level stream"""
         r = self.rng
         if r.random() > p:
             return []
@@ -138,8 +176,8 @@ class DocGen:
 
 
 def carried_sites(raw_sites_list):
-    """[(position, [attribute values])] per case -> [(position, [doc strings as carried on the unchanged tree])] per case:
-    the EXTRACTED c15_carried_sites (Spec/C15Spec.v: str::trim of every value)"""
+    """[(position, [attribute values])] per case -> [(position, [carried lines])] per case:
+    the EXTRACTED c15_carried_sites (Spec/C15Spec.v: per value the trimmed lines of the trimmed value)"""
     outs = vf.model([f'(c15carried {Lst(sites, lambda s: f"({s[0]} {Lst(s[1], S)})")})' for sites in raw_sites_list])
     return [[(x[0], [vf.unS(d) for d in x[1]]) for x in a] for a in outs]
 
@@ -204,7 +242,7 @@ def plant_ir(dg, items, risky, p):
 
 def sites_for(c, lang):
     """the doc strings whose text the back end of `lang` carries: Swift prints comment.trim_end() (swift.rs:743), every other
-    back end the string itself (source-level doc strings arrive trimmed, so this only matters for the IR-level stream)"""
+    back end the string itself (source-level doc lines arrive trimmed, so this only matters for the IR-level stream)"""
     if lang != 'swift':
         return c['sites']
     return [(p, [rust_trim_end(d) for d in ds]) for p, ds in c['sites']]
@@ -219,7 +257,9 @@ def sentinels_of(sites):
                 i = d.find('Zq', i)
                 if i < 0:
                     break
-                j = d.index('x', i)
+                j = d.find('x', i)
+                if j < 0:
+                    break
                 out.append(d[i:j + 1])
                 i = j + 1
     return out
@@ -249,14 +289,20 @@ def describe(o):
     return bad
 
 
-def sx_request(lang, sites, text):
-    return f'(c15 {lang} {Lst(sites, lambda s: f"({s[0]} {Lst(s[1], S)})")} {S(text)})'
+def sx_request(lang, sites, text, mark):
+    return f'(c15 {lang} {Lst(sites, lambda s: f"({s[0]} {Lst(s[1], S)})")} {S(text)} {mark})'
+
+
+def mark_of(c):
+    """corpus cases carry no sentinels: every written line is marked; generated cases: the sentinel-carrying lines"""
+    return 'all' if c.get('mark_all') else 'sentinel'
 
 
 def parse_answer(a):
     d = {x[0]: x[1] for x in a}
-    return {'known': None if d['known'] == 'none' else d['known'][1], 'reproduced': d['reproduced'] == 'true', 'contained': d['contained'] == 'true',
-            'good': d['good'] == 'true', 'unsafe': [vf.unS(x) for x in d['unsafe']], 'obs': [ord(c) for c in vf.unS(d['obs'])]}
+    return {'known': None if d['known'] == 'none' else d['known'][1], 'dom': d['dom'] == 'true', 'reproduced': d['reproduced'] == 'true',
+            'contained': d['contained'] == 'true', 'good': d['good'] == 'true', 'unsafe': [vf.unS(x) for x in d['unsafe']],
+            'written': [vf.unS(x) for x in d['written']], 'obs': [ord(c) for c in vf.unS(d['obs'])]}
 
 
 def py_tokenize_spans(text):
@@ -306,6 +352,34 @@ def run_cli(job):
     return {'rc': rc, 'stderr': err, 'text': out.read_bytes().decode('utf-8', 'replace') if out.exists() else None}
 
 
+# the fixed corpus: (name, doc attribute as (spelling, value)) on `pub struct Foo { pub x: u8 }`.  The first three are the witnesses
+# of the six repaired findings (KNOWN_FINDINGS.jsonl, status fixed; Props/C15.v C15_<l>_fixed): they must pass.
+CORPUS = [
+    ('two-lines', ('block', ' alpha\nbeta ')), ('star-slash', ('attr', 'alpha */ beta')), ('quotes', ('line', ' alpha """ beta')),
+    ('plain', ('line', ' alpha beta')),
+    # one line of text, line breaks only around it in the attribute value: carried trimmed
+    ('block-conventional', ('block', '\n * Zq900001x alpha\n ')), ('attr-leading-lf', ('attr', '\nZq900002x alpha')),
+    ('attr-lf-both-ends', ('attr', '\n\n\tZq900003x alpha \n')), ('line-indented', ('line', '     Zq900004x alpha  ')),
+    # the corners of the repaired writers
+    ('crlf-and-lone-cr', ('attr', 'alpha\r\nbeta\rgamma\r\r\ndelta')),
+    ('trailing-backslash', ('attr', 'alpha \\')), ('trailing-backslash-then-line', ('attr', 'alpha \\\nbeta \\')),
+    ('quote-lines', ('attr', 'Zq900005x alpha\n""\n"""\n"\nZq900006x omega')), ('quote-lines-last', ('attr', 'Zq900007x alpha\n"\n""')),
+    ('only-quotes', ('attr', '"""')), ('two-quotes-last', ('attr', 'alpha ""')),
+    ('terminator-then-text', ('attr', '*/ Zq900008x omega')), ('quotes-then-text', ('attr', '""" Zq900009x omega')),
+    ('terminator-line-then-text', ('attr', '*/\nZq900010x omega')), ('quotes-line-then-text', ('attr', '"""\nZq900011x omega')),
+    ('quote-runs', ('attr', 'a \\""" b """" c """"" d """""" e \\\\""" f')),
+    ('star-then-slash-line', ('attr', 'alpha *\n/ beta')), ('only-terminator', ('attr', '*/')), ('terminators', ('attr', '*/*/ **/ */')),
+    ('control-characters', ('attr', 'alpha\x0cbeta\x0bgamma\u2028delta')), ('blank-inside', ('attr', 'alpha\n\nbeta')),
+    ('conventional-two-lines', ('block', '\n * alpha\n * beta\n ')),
+]
+
+
+def distinctive(value):
+    """a corpus value without sentinels all of whose carried lines contain a word that occurs nowhere else in the generated file:
+    every written line can be located by searching it"""
+    return 'Zq' not in value and all(ln == '' or any(w in ln for w in ('alpha', 'beta', 'gamma', 'delta')) for ln in rust_carried(value))
+
+
 def gen_cases(chk, n):
     rng = chk.rng
     gen = progs.ProgGen(rng, progs.Profile(p_unannotated=0.08, p_skip=0.05, p_generic=0.08, p_nested=0.1, n_items=(1, 4)))
@@ -323,14 +397,12 @@ def gen_cases(chk, n):
         risky = k % 2 == 1
         sites = plant_ir(DocGen(rng), items, risky, rng.choice([0.5, 0.8, 1.0]))
         cases.append({'items': items, 'sites': sites, 'risky': risky})
-    # fixed corpus: the six witnesses of Props/C15.v as source programs, and a well-behaved program
-    for name, doc in (('two-lines', ('block', ' alpha\nbeta ')), ('star-slash', ('attr', 'alpha */ beta')), ('quotes', ('line', ' alpha """ beta')),
-                      ('plain', ('line', ' alpha beta')),
-                      # one line of text, line breaks only around it in the attribute value: carried trimmed, safe everywhere
-                      ('block-conventional', ('block', '\n * Zq900001x alpha\n ')), ('attr-leading-lf', ('attr', '\nZq900002x alpha')),
-                      ('attr-lf-both-ends', ('attr', '\n\n\tZq900003x alpha \n')), ('line-indented', ('line', '     Zq900004x alpha  '))):
+    for name, doc in CORPUS:
         cases.insert(0, {'source': f'{progs.doc_src(doc)}\n#[typeshare]\npub struct Foo {{\n    pub x: u8,\n}}\n', 'raw_sites': [('struct', [doc[1]])],
-                         'risky': name in ('two-lines', 'star-slash', 'quotes'), 'corpus': name})
+                         'risky': True, 'corpus': name, 'mark_all': distinctive(doc[1])})
+    # a blank `///` line between two paragraphs stays one empty entry
+    cases.insert(0, {'source': '/// alpha\n///\n/// beta\n#[typeshare]\npub struct Foo {\n    pub x: u8,\n}\n', 'raw_sites': [('struct', [' alpha', '', ' beta'])],
+                     'risky': False, 'corpus': 'blank-doc-line', 'mark_all': True})
     # every documentable position at once, each doc spelled with surrounding line breaks (the layout of seeded/C15_b)
     k = [900100]
 
@@ -338,21 +410,26 @@ def gen_cases(chk, n):
         k[0] += 1
         t = f'Zq{k[0]}x {text}'
         return [('block', f'\n * {t}\n '), ('attr', f'\n{t}'), ('attr', f'\n\n{t}\n'), ('attr', f'\n\t{t}')][k[0] % 4]
-    d = [edge(t) for t in ('struct', 'field', 'alias', 'unit enum', 'unit variant', 'tagged enum', 'tuple variant', 'struct variant', 'variant field', 'newtype')]
-    src = (f'{progs.doc_src(d[0])}\n#[typeshare]\npub struct Account {{\n    {progs.doc_src(d[1])}\n    pub name: String,\n}}\n'
-           f'{progs.doc_src(d[2])}\n#[typeshare]\npub type AccountId = String;\n'
-           f'{progs.doc_src(d[3])}\n#[typeshare]\npub enum Colour {{\n    {progs.doc_src(d[4])}\n    Red,\n    Green,\n}}\n'
-           f'{progs.doc_src(d[5])}\n#[typeshare]\n#[serde(tag = "type", content = "content")]\npub enum Event {{\n    {progs.doc_src(d[6])}\n    Renamed(String),\n'
-           f'    {progs.doc_src(d[7])}\n    Moved {{\n        {progs.doc_src(d[8])}\n        to: String,\n    }},\n}}\n'
-           f'{progs.doc_src(d[9])}\n#[typeshare]\npub struct Wrapper(pub u32);\n')
-    cases.insert(0, {'source': src, 'corpus': 'all-positions-surrounded-by-line-breaks', 'risky': False,
-                     'raw_sites': [('struct', [d[0][1]]), ('field', [d[1][1]]), ('alias', [d[2][1]]), ('unit_enum', [d[3][1]]), ('variant', [d[4][1]]),
-                                   ('alg_enum', [d[5][1]]), ('variant', [d[6][1]]), ('variant', [d[7][1]]), ('variant_field', [d[8][1]]), ('alias', [d[9][1]])]})
-    # what the unchanged tree carries for these attribute values: the extracted trim, cross-checked with the local str::trim
+
+    def hostile(text):
+        k[0] += 1
+        return ('attr', f'Zq{k[0]}x {text} */ """ \\\nZq{k[0]}y """" \\"""\r\n*/\n"""\nZq{k[0]}z *\n/ \\')
+    for maker, name in ((edge, 'all-positions-surrounded-by-line-breaks'), (hostile, 'all-positions-hostile-lines')):
+        d = [maker(t) for t in ('struct', 'field', 'alias', 'unit enum', 'unit variant', 'tagged enum', 'tuple variant', 'struct variant', 'variant field', 'newtype')]
+        src = (f'{progs.doc_src(d[0])}\n#[typeshare]\npub struct Account {{\n    {progs.doc_src(d[1])}\n    pub name: String,\n}}\n'
+               f'{progs.doc_src(d[2])}\n#[typeshare]\npub type AccountId = String;\n'
+               f'{progs.doc_src(d[3])}\n#[typeshare]\npub enum Colour {{\n    {progs.doc_src(d[4])}\n    Red,\n    Green,\n}}\n'
+               f'{progs.doc_src(d[5])}\n#[typeshare]\n#[serde(tag = "type", content = "content")]\npub enum Event {{\n    {progs.doc_src(d[6])}\n    Renamed(String),\n'
+               f'    {progs.doc_src(d[7])}\n    Moved {{\n        {progs.doc_src(d[8])}\n        to: String,\n    }},\n}}\n'
+               f'{progs.doc_src(d[9])}\n#[typeshare]\npub struct Wrapper(pub u32);\n')
+        cases.insert(0, {'source': src, 'corpus': name, 'risky': maker is hostile,
+                         'raw_sites': [('struct', [d[0][1]]), ('field', [d[1][1]]), ('alias', [d[2][1]]), ('unit_enum', [d[3][1]]), ('variant', [d[4][1]]),
+                                       ('alg_enum', [d[5][1]]), ('variant', [d[6][1]]), ('variant', [d[7][1]]), ('variant_field', [d[8][1]]), ('alias', [d[9][1]])]})
+    # what these attribute values carry: the extracted c15_carried, cross-checked with the local str::trim / lines / split
     src_cases = [c for c in cases if 'raw_sites' in c]
     for c, sites in zip(src_cases, carried_sites([c['raw_sites'] for c in src_cases])):
         c['sites'] = [(p, ds) for p, ds in sites if ds]
-        c['trim_agrees'] = all(rust_trim(v) == d for (_, vs), (_, ds) in zip(c['raw_sites'], sites) for v, d in zip(vs, ds))
+        c['carried_agrees'] = all([x for v in vs for x in rust_carried(v)] == ds for (_, vs), (_, ds) in zip(c['raw_sites'], sites))
     return cases
 
 
@@ -373,7 +450,7 @@ def judge(chk, cases, tag=''):
                 c['res'][l] = {'impl': r['impl'], 'model': r['model'], 'ir': r.get('ir') if 'source' in c else c['items']}
                 for side in ('impl', 'model'):
                     if r[side][0] == 'ok':
-                        reqs.append(sx_request(l, sites_for(c, l), r[side][1]))
+                        reqs.append(sx_request(l, sites_for(c, l), r[side][1], mark_of(c)))
                         where.append((c, l, side))
     for (c, l, side), a in zip(where, vf.model(reqs)):
         c['res'][l][side + '_judged'] = parse_answer(a)
@@ -381,8 +458,10 @@ def judge(chk, cases, tag=''):
 
 def payload_of(c, l, extra=None):
     r = c['res'][l]
-    p = {'lang': l, 'cfg': dict(next(x[3] for x in LANGS if x[0] == l)), 'sites': c['sites']}
+    p = {'lang': l, 'cfg': dict(next(x[3] for x in LANGS if x[0] == l)), 'sites': c['sites'], 'mark_all': bool(c.get('mark_all'))}
     p.update({'source': c['source']} if 'source' in c else {'items': c['items']})
+    if c.get('corpus'):
+        p['corpus'] = c['corpus']
     if r['impl'][0] == 'ok':
         p['output'] = r['impl'][1]
     else:
@@ -394,14 +473,18 @@ def payload_of(c, l, extra=None):
 
 def run(chk):
     chk.rule = ('a seeded program (lib/progs.py: structs, unit structs, newtypes, aliases, unit enums, tagged enums with unit/tuple/struct variants) whose '
-                'documentable positions (type, field, variant, struct-variant field, alias) carry 1-3 doc strings built from unique sentinels '
-                'interleaved with tokens of the alphabet {LF, CR, */, /*, //, """, \'\'\', backslash, #, backtick, quotes, text, LS ...}, written as ///, '
-                '/** */ or #[doc=".."]; every program x 6 languages; half of the programs use only tokens harmless in every language. '
-                'non-trivial = distinct (program, language) outside the finding class with at least one planted sentinel reproduced in the output')
+                'documentable positions (type, field, variant, struct-variant field, alias) carry 1-3 doc attributes built from unique sentinels '
+                'interleaved with tokens of the alphabet {LF, CR, CR LF, */, /*, //, runs of 3-7 double quotes, \'\'\', backslash (before quotes, at line ends), #, '
+                'backtick, FF, VT, LS, lines that are only a terminator, text ...}, written as ///, /** */ or #[doc=".."]; every program x 6 languages; half of the '
+                'programs use only tokens without line break or terminator; plus a fixed corpus (the witnesses of the six repaired findings and the corner '
+                'cases of the repaired writers) and an IR-level stream with raw doc strings. '
+                'non-trivial = distinct (program, language) with at least one planted sentinel reproduced in the output')
     chk.assumptions = ['what "inside a comment / docstring" means is the reference lexer of Spec/Lexers.v (no Kotlin/Swift/Scala/Go/TypeScript lexer is installed); '
                        'for Python it is cross-checked against CPython tokenize on the same bytes',
                        'syn is not modelled: the model receives the AST produced by harness/libdrive/src/ast.rs from the same text',
-                       'doc positions in the generated bytes are located by searching the (sentinel-carrying, hence unique) doc strings: extracted c15_mark_docs']
+                       'doc positions in the generated bytes are located by searching the sentinel-carrying (hence unique) written lines: extracted c15_mark_docs; '
+                       'a written line without sentinel is required to occur in the file, and cannot leave its comment unnoticed if a sentinel follows it in the same '
+                       'fragment or the file no longer ends in code mode']
     chk.prepare(need_cli=True)
     if not chk.harness_ok:
         return
@@ -421,40 +504,43 @@ def run(chk):
                 if not back.same(impl, model):
                     corr.append(payload_of(c, l, {'model': list(model)[:1]}))
                 continue
-            # the front end delivered the doc strings the generator planted (one raw string per attribute)
+            # the front end delivered the lines the specification says the planted attributes carry
             got = [(p, ds) for p, _, ds in ir_sites(r['ir']) if ds]
-            # (a mismatch is recorded, and the real bytes are STILL judged against the strings the unchanged tree carries)
+            # (a mismatch is recorded, and the real bytes are STILL judged against the lines the specification expects)
             if 'source' in c and sorted(got) != sorted((p, list(ds)) for p, ds in c['sites']):
                 front_bad.append(payload_of(c, l, {'ir_sites': got}))
-            if 'source' in c and not c.get('trim_agrees', True):
-                corr.append(payload_of(c, l, {'note': "extracted c15_carried (trim) and the check's own str::trim disagree on an attribute value", 'raw_sites': c['raw_sites']}))
+            if 'source' in c and not c.get('carried_agrees', True):
+                corr.append(payload_of(c, l, {'note': "extracted c15_carried and the check's own str::trim / lines / split disagree on an attribute value", 'raw_sites': c['raw_sites']}))
             ji, jm = r['impl_judged'], r['model_judged']
             oi, om = observe(impl[1], ji['obs'], sents), observe(model[1], jm['obs'], sents)
-            equal = oi == om and ji['good'] == jm['good']
-            known = ji['known']
+            equal = oi == om and ji['good'] == jm['good'] and ji['reproduced'] == jm['reproduced']
             for p, ds in c['sites']:
                 chk.count('docs_' + p, len(ds))
             if ci % 41 == 0 and l in ('kotlin', 'python'):
-                chk.sample({'lang': l, 'sites': c['sites'][:3], 'known': known, 'good': ji['good'], 'escaped': describe(oi)})
-            if ji['good'] and equal:
-                if known is None:
-                    chk.count('contained_' + l)
-                    if sents:
-                        chk.nontrivial.add((c.get('source') or json.dumps(c['items'], sort_keys=True), l))
-                else:
-                    # cannot happen by C15_necessary; if it does, lexer/marking and theorem disagree
-                    corr.append(payload_of(c, l, {'note': 'in the finding class yet judged contained', 'unsafe': ji['unsafe']}))
+                chk.sample({'lang': l, 'sites': c['sites'][:3], 'written': ji['written'][:4], 'good': ji['good'], 'escaped': describe(oi)})
+            if ji['known'] is not None:
+                corr.append(payload_of(c, l, {'note': f'known_C15 answered {ji["known"]}: no finding class is left'}))
+            in_dom = ji['dom']
+            if 'source' in c and not in_dom:
+                # C15_carried_safe: cannot happen on what the front end carries
+                corr.append(payload_of(c, l, {'note': 'a carried line is not c15_safe', 'unsafe': ji['unsafe']}))
+            if 'items' in c and not in_dom:
+                # IR-level doc strings with a line break at a position printed as a line comment: no source text produces them
+                chk.count('ir_outside_front_end_range_' + l)
+                if not equal or impl[1] != model[1]:
+                    corr.append(dict(payload_of(c, l, {'escaped': describe(oi)}), model_escaped=describe(om), note='IR-level input outside dom_C15_ir: model and implementation differ'))
                 continue
-            pl = payload_of(c, l, {'escaped': describe(oi), 'unsafe_doc_strings': ji['unsafe'], 'reproduced': ji['reproduced'], 'contained': ji['contained']})
+            if ji['good'] and equal:
+                chk.count('contained_' + l)
+                if any(oi.get(s) for s in sents):
+                    chk.nontrivial.add((c.get('source') or json.dumps(c['items'], sort_keys=True), l))
+                continue
+            pl = payload_of(c, l, {'escaped': describe(oi), 'unsafe_doc_strings': ji['unsafe'], 'reproduced': ji['reproduced'], 'contained': ji['contained'],
+                                   'written': ji['written']})
             if not ji['good']:
-                if known is None:
-                    chk.violation(f'{l}-{ci}', pl, f'{l}: doc text that is safe for this language is not reproduced or leaves its comment: {describe(oi) or "lexer not back in code at the end"}')
-                elif not equal:
-                    chk.violation(f'{l}-{ci}', dict(pl, model_escaped=describe(om)), f'{l}: doc text escapes differently from what the model (finding {known}) predicts')
-                elif not chk.known(known, pl):
-                    chk.violation(f'{l}-{ci}', pl, f'{l}: doc text escapes its comment; class {known} is not an open finding')
-                else:
-                    chk.count('escaped_' + l)
+                missing = [w for w in ji['written'] if w not in impl[1]]
+                chk.violation(f'{l}-{c.get("corpus") or ci}', dict(pl, not_reproduced=missing, model_escaped=describe(om)),
+                              f'{l}: doc text is not reproduced or leaves its comment: {describe(oi) or (("missing lines " + repr(missing[:3])) if missing else "lexer not back in code at the end of the file")}')
             else:
                 corr.append(dict(pl, model_escaped=describe(om)))
     # Python: the Gallina lexer against CPython's tokenize on the real bytes
@@ -478,7 +564,7 @@ def run(chk):
                 i = text.find(s, i + 1)
     # a sample through the real binary
     if chk.cli_ok:
-        sub = [(c, LANGS[k % 6]) for k, c in enumerate([c for c in cases if 'source' in c][:(96 if chk.tier == 'quick' else 1800)])]
+        sub = [(c, LANGS[k % 6]) for k, c in enumerate([c for c in cases if 'source' in c][:(120 if chk.tier == 'quick' else 1800)])]
         with concurrent.futures.ThreadPoolExecutor(max_workers=vf.NPROC) as ex:
             outs = list(ex.map(run_cli, [(c['source'], l, ext, extra) for c, (l, ext, extra, cfg) in sub]))
         reqs, idx = [], []
@@ -492,7 +578,7 @@ def run(chk):
                     if o['rc'] == 0 and r['ir'] and (r['ir'].get('structs') or r['ir'].get('enums') or r['ir'].get('aliases')):
                         corr.append(payload_of(c, l, {'cli': o}))
                 continue
-            reqs.append(sx_request(l, sites_for(c, l), o['text']))
+            reqs.append(sx_request(l, sites_for(c, l), o['text'], mark_of(c)))
             idx.append(k)
         for k, a in zip(idx, vf.model(reqs)):
             (c, (l, ext, extra, cfg)), o = sub[k], outs[k]
@@ -503,22 +589,19 @@ def run(chk):
             sents = sentinels_of(c['sites'])
             ob, ol = observe(o['text'], j['obs'], sents), observe(r['impl'][1], r['impl_judged']['obs'], sents)
             pl = payload_of(c, l, {'cli_output': o['text'], 'escaped': describe(ob)})
-            if ob != ol or j['good'] != r['impl_judged']['good']:
-                if not j['good'] and j['known'] is None:
-                    chk.violation(f'cli-{l}-{k}', pl, f'{l} (real binary): safe doc text leaves its comment: {describe(ob)}')
-                else:
-                    corr.append(dict(pl, note='the binary and the library generator give different observations'))
-            elif not j['good'] and j['known'] is None:
-                chk.violation(f'cli-{l}-{k}', pl, f'{l} (real binary): safe doc text leaves its comment: {describe(ob)}')
+            if not j['good']:
+                chk.violation(f'cli-{l}-{k}', pl, f'{l} (real binary): doc text is not reproduced or leaves its comment: {describe(ob)}')
+            elif ob != ol or j['good'] != r['impl_judged']['good']:
+                corr.append(dict(pl, note='the binary and the library generator give different observations'))
     chk.count('correspondence_mismatches', len(corr))
     chk.count('front_end_mismatches', len(front_bad))
     if not [v for v in chk.violations if not v[2]]:
         if front_bad:
-            chk.violation('front', {'correspondence': 'doc strings delivered by parser::parse vs the strings planted (trimmed, one per attribute)', 'cases': front_bad[:4]},
-                          'the front end does not deliver the planted doc strings one per attribute, yet no escaping doc text was found', no_input=True)
+            chk.violation('front', {'correspondence': 'doc lines delivered by parser::parse vs the lines the specification says the planted attributes carry (c15_carried)', 'cases': front_bad[:4]},
+                          'the front end does not deliver the carried lines of the planted doc attributes, yet no escaping doc text was found', no_input=True)
         if corr:
             chk.violation('correspondence', {'correspondence': 'lexer observation of the doc sentinels: model bytes vs real bytes (and CPython tokenize for Python)', 'cases': corr[:4]},
-                          'model and implementation (or the reference lexer and CPython) disagree, yet no safe doc text was found to escape', no_input=True)
+                          'model and implementation (or the reference lexer and CPython) disagree, yet no doc text was found to escape', no_input=True)
 
 
 def replay(chk, path):
@@ -527,7 +610,7 @@ def replay(chk, path):
     if 'source' not in d and 'items' not in d:
         print(json.dumps(d, indent=1)[:3000])
         return 0
-    c = {'sites': [(p, ds) for p, ds in d['sites']]}
+    c = {'sites': [(p, ds) for p, ds in d['sites']], 'mark_all': d.get('mark_all', False)}
     c.update({'source': d['source']} if 'source' in d else {'items': d['items']})
     judge(chk, [c])
     sents = sentinels_of(c['sites'])
@@ -541,9 +624,9 @@ def replay(chk, path):
             j = r.get(side + '_judged')
             if j:
                 o = observe(r[side][1], j['obs'], sents)
-                print(f'  {side}: known={j["known"]} reproduced={j["reproduced"]} contained={j["contained"]} good={j["good"]} unsafe={j["unsafe"]}')
+                print(f'  {side}: dom={j["dom"]} reproduced={j["reproduced"]} contained={j["contained"]} good={j["good"]} unsafe={j["unsafe"]}')
                 print(f'  {side}: escaped: {describe(o)}')
-                if side == 'impl' and not j['good'] and j['known'] is None:
+                if side == 'impl' and not j['good'] and (j['dom'] or 'source' in c):
                     rc = 1
         if r['impl'][0] == 'ok':
             print(r['impl'][1])
